@@ -123,6 +123,15 @@ namespace nmtools::index
                 return return_t{meta::Nothing};
             }
 
+            // a zero extent or a negative extent other than -1 is invalid
+            // (and a zero dst_numel must not reach the modulo below)
+            for (size_t i=0; i<(size_t)len(dst_shape); i++) {
+                auto d_i = (index_t)at(dst_shape,i);
+                if ((d_i == index_t(0)) || (d_i < index_t(-1))) {
+                    return return_t{meta::Nothing};
+                }
+            }
+
             auto src_numel = (size_t)product(src_shape);
 
             if ((minus_1_count == 0) && (src_numel != dst_numel)) {
